@@ -187,13 +187,13 @@ fn c03_corpus() -> Vec<(Dag, Vec<(f32, f32)>, Vec<Vec<f32>>, bool)> {
     }
     {   // hash opcodes distinguish the two zeros, interval arithmetic does not
         let mut ctx = Context::new();
-        let x = ctx.x();
-        let z = ctx.mul(x, 0.0).unwrap();
+        let x = ctx.x(); let zz = ctx.z();
+        let z = ctx.mul(x, zz).unwrap();
         let m = ctx.mix(z, 1.0).unwrap();
         let r = ctx.rand(z).unwrap();
         let s = ctx.add(m, r).unwrap();
         out.push((Dag { ctx, roots: vec![s], vs: vec![] }, vec![(-1.0, 1.0), (0.0, 0.0), (0.0, 0.0)],
-                  vec![vec![-0.5, 0.0, 0.0], vec![0.5, 0.0, 0.0], vec![0.0, 0.0, 0.0]], false));
+                  vec![vec![-0.5, 0.0, 0.0], vec![0.5, 0.0, 0.0], vec![0.0, 0.0, 0.0], vec![-1.0, 0.0, -0.0]], false));
     }
     out
 }
